@@ -25,8 +25,8 @@ def expected : List (String × List (String × String)) := [
   ("shift.py:G.__init__", [("np.any(tau < 0)", "ValueError"), ("not common.isscalar(gradient) and common.get_shape(gradient)[-1] > 3", "ValueError")]),
   ("shift.py:C.__init__", [("np.any(tau < 0)", "ValueError")]),
   ("diffusion.py:get_shape", [("len(D_shape) == 1", "ValueError"), ("len(set(D_shape[-2:])) == 2", "ValueError"), ("len(D_shape) and len(k_shape) and (D_shape[-1] != k_shape[-1])", "ValueError")]),
-  ("exchange.py:X.__init__", [("khi.ndim < 2", "ValueError"), ("khi.shape[:-1][axis] != khi.shape[-1]", "ValueError"), ("not all([np.allclose(khi[..., i].sum(axis=axis), 0) for i in range(khi.shape[-1])])", "ValueError")]),
-  ("exchange.py:X._apply", [("not xp.allclose(dotp(self.khi, sm.density[..., NAX], axes=[-1, ax]), 0)", "RuntimeError"), ("sm.shape[ax] != ncomp", "RuntimeError")]),
+  ("exchange.py:X.__init__", [("np.any(np.asarray(tau) < 0)", "ValueError"), ("khi.ndim < 2", "ValueError"), ("khi.shape[:-1][axis] != khi.shape[-1]", "ValueError"), ("not all([np.allclose(khi[..., i].sum(axis=axis), 0, atol=1e-08 * max(1.0, np.abs(khi).max())) for i in range(khi.shape[-1])])", "ValueError")]),
+  ("exchange.py:X._apply", [("not xp.allclose(flux, 0, atol=1e-08 * scale)", "RuntimeError"), ("sm.shape[ax] != ncomp", "RuntimeError")]),
   ("exchange.py:exchange_matrix", [("np.any(k < 0)", "ValueError")]),
   ("opscalar.py:scalar_format", [("arr.ndim < 2 or arr.shape[-1] != 3", "ValueError"), ("check and (not xp.allclose(arr, arr[..., (1, 0, 2)].conj()))", "ValueError")]),
   ("opmatrix.py:matrix_format", [("mat.ndim < 3 or mat.shape[-2:] != (3, 3)", "ValueError"), ("not xp.allclose(mat, mat[..., (1, 0, 2), :][..., (1, 0, 2)].conj())", "ValueError")]),
@@ -37,7 +37,12 @@ def expected : List (String × List (String × String)) := [
   ("sequence.py:Sequence.check", [("invalid", "ValueError")]),
   ("sequence.py:Sequence.build", [("invalid", "ValueError"), ("invalid", "ValueError")]),
   ("sequence.py:Variable.__call__", [("not self.name in kwargs", "ValueError")]),
-  ("common.py:broadcast_shapes", [("len(dims) > 1", "ValueError")])
+  ("common.py:broadcast_shapes", [("len(dims) > 1", "ValueError")]),
+  ("evolution.py:E.__init__", [("np.any(np.asarray(tau) < 0)", "ValueError")]),
+  ("evolution.py:P.__init__", [("np.any(np.asarray(tau) < 0)", "ValueError")]),
+  ("diffusion.py:D.__init__", [("np.any(np.asarray(tau) < 0)", "ValueError")]),
+  ("operator.py:Operator.copy", [("np.any(np.asarray(duration) < 0)", "ValueError")]),
+  ("sequence.py:VirtualOperator.build", [("invalid", "ValueError")])
 ]
 
 theorem guards_as_modelled : Gen.GuardSites.guards = expected := rfl
